@@ -606,6 +606,11 @@ func RemoveAll(path string) error {
 }
 
 func Rename(oldpath, newpath string) error {
+	// os.Rename first looks at the new name (to refuse replacing a directory); whatever that look yields, it
+	// goes on to the rename itself - the look is logged (it is a system call of its own) but cannot fail the call
+	if FS.quiet == 0 {
+		FS.Log = append(FS.Log, Op{Kind: "lstat", Path: newpath})
+	}
 	if err := FS.log("rename", oldpath, newpath); err != nil {
 		return err
 	}
